@@ -268,7 +268,8 @@ func (x *runner) facts(c *kase, mlen, kmin, ksel, kn int, dec bool) map[string]a
 	if c.Net == "beacon" {
 		sum = x.sumLen()
 	}
-	return map[string]any{"ch": c.Ch, "net": c.Net, "kind": c.Kind, "code": c.Code, "sub": c.Sub, "mlen": mlen, "kmin": kmin, "ksel": ksel, "kn": kn, "sumlen": sum, "dec": dec, "zl": false}
+	return map[string]any{"ch": c.Ch, "net": c.Net, "kind": c.Kind, "code": c.Code, "sub": c.Sub, "mlen": mlen, "kmin": kmin, "ksel": ksel, "kn": kn, "sumlen": sum, "dec": dec, "zl": false,
+		"fu": c.Fu, "seqhigh": c.St == "seqhigh"}
 }
 
 // zeroLenItem: read as an SSZ list of variable-size items (offset table first), does b hold a zero-length item?
@@ -517,6 +518,82 @@ func (x *runner) rngFor(i, fill int) *rand.Rand {
 }
 
 // eval executes one concretisation of a case. from > 0 selects the sender (sequences).
+// followUp arms the scripted peer's answer to the record request (FINDNODES [0]) that a PING / PONG with a high enr_seq
+// triggers inside the node, and returns a function that waits until that nested exchange is over.
+func (x *runner) followUp(rng *rand.Rand, c *kase, netName string, p *peer) (wait func()) {
+	if c.Fu == "" || c.Fu == "na" {
+		return func() {}
+	}
+	own, _ := enrBytes(p.Self())
+	nodes := func(items ...[]byte) []byte {
+		b, _ := (&portalwire.Nodes{Total: 1, Enrs: items}).MarshalSSZ()
+		return append([]byte{portalwire.NODES}, b...)
+	}
+	var reply []byte
+	armed := true
+	switch c.Fu {
+	case "honest":
+		armed = false
+	case "none":
+		reply = []byte{}
+	case "bare":
+		reply = []byte{portalwire.NODES}
+	case "garbage":
+		reply = cat([]byte{portalwire.NODES}, filler(rng, 5+rng.Intn(60)))
+	case "emptylist":
+		reply = nodes()
+	case "wrongcode":
+		reply = validPong(p.Self().Seq())
+	case "badrecord":
+		other, _ := enrBytes(x.w.peers[(indexOfPeer(x.w, p)+1)%len(x.w.peers)].Self())
+		reply = nodes(other)
+	case "trunc":
+		full := nodes(own)
+		reply = full[:len(full)-1-rng.Intn(8)]
+	case "silent":
+		reply = []byte("\x00silent")
+	}
+	p.mu.Lock()
+	before := p.seen
+	p.mu.Unlock()
+	key := fmt.Sprintf("%s/%d", netName, portalwire.FINDNODES)
+	if armed {
+		p.setScript(netName, portalwire.FINDNODES, reply)
+	}
+	return func() {
+		// the nested request is sent from the handling call (PONG) or from the goroutine it starts (PING): wait until the
+		// peer has seen it and give the node time to work on the answer; then disarm whatever was not used
+		deadline := time.Now().Add(400 * time.Millisecond)
+		for time.Now().Before(deadline) {
+			p.mu.Lock()
+			_, pending := p.script[key]
+			seen := p.seen
+			p.mu.Unlock()
+			if (armed && !pending) || (!armed && seen > before+1) {
+				break
+			}
+			time.Sleep(2 * time.Millisecond)
+		}
+		if c.Fu == "silent" {
+			time.Sleep(900 * time.Millisecond) // the node's request runs into its timeout
+		} else {
+			time.Sleep(15 * time.Millisecond)
+		}
+		p.mu.Lock()
+		delete(p.script, key)
+		p.mu.Unlock()
+	}
+}
+
+func indexOfPeer(w *world, p *peer) int {
+	for i, q := range w.peers {
+		if q == p {
+			return i
+		}
+	}
+	return 0
+}
+
 func (x *runner) eval(c *kase, i, fill, from int) {
 	rng := x.rngFor(i, fill)
 	mode := "direct"
@@ -546,6 +623,10 @@ func (x *runner) eval(c *kase, i, fill, from int) {
 		f := x.facts(c, len(msg), minLen(keys), fsel, fkn, dec)
 		x.announce(i, fill, f, mut, pre, digest([]byte(c.Ch+c.Net), msg), hexHead(msg), len(msg))
 		var o outcome
+		waitFollow := func() {}
+		if mut == "none" {
+			waitFollow = x.followUp(rng, c, c.Net, p)
+		}
 		if x.live {
 			o = x.deliver(p, string(protoOf[c.Net]), msg)
 		} else {
@@ -553,6 +634,7 @@ func (x *runner) eval(c *kase, i, fill, from int) {
 				return callResult{talk: true, reply: portalwire.VerifHandleTalkRequest(n.P, p.Self(), p.udpAddr(), msg)}
 			})
 		}
+		waitFollow()
 		rq := -1
 		if len(msg) > 0 {
 			rq = int(msg[0])
@@ -631,6 +713,15 @@ func (x *runner) eval(c *kase, i, fill, from int) {
 		}
 		rec := func(o outcome) {
 			x.record(c, i, fill, mode, mut, "none", f, o, -1, p.ver, digest([]byte("resp"+c.Kind), in.msg), hexHead(in.msg), len(in.msg), map[string]any{"from": p.name})
+		}
+		if c.Kind == "pong" && mut == "none" && c.Fu != "" && c.Fu != "na" {
+			inner := call
+			call = func() callResult {
+				wait := x.followUp(rng, c, net, p)
+				r := inner()
+				wait()
+				return r
+			}
 		}
 		if in.slow {
 			// a well-formed connection id: the code dials uTP and waits for its own connect timeout - run beside the rest
